@@ -14,10 +14,11 @@ func init() {
 		"(R1) buildLogLeaf copies LeafInput / ExtraData verbatim, submits under the index it was given, takes the identity hash from the configured function over that index and the raw entry, and nothing after RawLogEntryFromLeaf (in particular not the certificate parse) can fail the leaf; idHashCertData = SHA-256(cert data), idHashLeafIndex = SHA-256(8-byte little-endian index); the identity-function switch binds exactly these and rejects unknown values; the destination must be a PREORDERED_LOG; "+
 		"(R2) addSequencedLeaves gives entry i of a batch the index Start+i (same i for entry, index and slot), sends {LogId: tree id, Leaves: the built leaves} and stops before the RPC on a leaf error; "+
 		"(R3) the reply switch retries exactly on ResourceExhausted, stops on OK (absent reply ⇒ error) and on every other code, the recorded RPC error is what the caller gets, and the value returned to request a retry is one the pinned backoff.Retry actually retries (decided against backoff.IsRetryable's own code); "+
-		"(R4) fetchTail cannot start the fetcher unless getRoot, Prepare succeeded, the source grew past `begin`, and verifyConsistency(destination size, destination root, source STH) returned nil; it reports the source tree size only when Run and the shared context are error-free; the submitters run as goroutines (started by fetchTail or by a function only it calls) on that context and on the channel the fetcher callback feeds, a submitter error cancels that context, and the context's Err() verdict is read only after close(batches) and Wait() on the WaitGroup every submitter is counted in (never deferred: a late submitter failure must still be seen); verifyConsistency returns nil without a proof only for an empty destination or NoConsistencyCheck, otherwise the result of proof.VerifyConsistency(hasher, dest size, sth size, proof(dest size, sth size), dest root, sth root); "+
+		"(R4) fetchTail obtains ONE source tree head per pass (from the Fetcher's Prepare, or from the source client itself) and cannot start the fetcher unless getRoot and that request succeeded, the source grew past `begin`, and verifyConsistency(destination size, destination root, that STH) returned nil in this pass — or a verdict remembered on the Controller is hit: every input the verdict depends on (read off verifyConsistency: destination size, root hash, STH size, STH root hash) is compared with the remembered one and a mismatch bars the bypass, the never-filled state is no hit, and the remembered fields are written only by fetchTail after a nil verdict with the verified values; the Fetcher reads the configured source client and fits its range to the verified tree head (it delivered it, or its client is a struct around p0.ctClient whose only own method, GetSTH, answers with the verified STH); it reports, only when Run and the shared context are error-free, the verified tree size or the end of the transferred range (the options' EndIndex, fitted to the verified size iff 0 or beyond it, on every path to the return, unwritten afterwards); the submitters run as goroutines (started by fetchTail or by a function only it calls) on that context and on the channel the fetcher callback feeds, a submitter error cancels that context, and the context's Err() verdict is read only after close(batches) and Wait() on the WaitGroup every submitter is counted in (never deferred: a late submitter failure must still be seen); verifyConsistency returns nil without a proof only for an empty destination or NoConsistencyCheck, otherwise the result of proof.VerifyConsistency(hasher, dest size, sth size, proof(dest size, sth size), dest root, sth root); "+
 		"(R5) resume position: continuous ⇒ StartIndex = destination tree size, EndIndex = 0 (clamped to the verified STH by Prepare, C16); begin > StartIndex ⇒ StartIndex = begin; Run threads each pass's result into the next; "+
 		"(R6) AddSequencedLeaves, addSequencedLeaves, buildLogLeaf, runSubmitter, verifyConsistency and fetchTail have no other callers. "+
-		"NOT covered: the destination's state after a run, per-leaf statuses in the AddSequencedLeaves reply, restarts and mastership histories, back-off timing, fetcher cursor discipline (C16), behaviour of the source log and of proof.VerifyConsistency.",
+		"(R10) somebody works: the loops that start the submitter goroutines and the fetch-worker goroutines of the Fetcher.Run fetchTail calls are entered at least once for every value of the configuration fields their counts are computed from that the configuration validator (func(*MigrationConfig) error) accepts — the count is followed from the loop's first test back through struct fields (by allocation site), copies, parameters, constructors and defaults to the configuration message and evaluated for sample values containing every constant it is compared with ±1 and the extremes of its type; the fields on the way are written only into structs their writer allocated; a function whose success the validator gates is called, and its error looked at, before the configuration is handed on (a pass with no worker fails nothing, cancels nothing and reports the tail as transferred with no entry copied). "+
+		"NOT covered: in-place modification of a remembered STH / root hash, locking of the remembered verdict (fetchTail passes are sequential), that the validated message is the very one the controllers are built from, negative or huge channel sizes, worker counts of other users of scanner.Fetcher (C16), the destination's state after a run, per-leaf statuses in the AddSequencedLeaves reply, restarts and mastership histories, back-off timing, fetcher cursor discipline (C16), behaviour of the source log and of proof.VerifyConsistency.",
 		runC20)
 }
 
@@ -89,6 +90,9 @@ func runC20(r *Run) {
 	c20UnparsableCopied(r)
 	r.Rule("C20.R9")
 	c20Defaults(r)
+	// somebody works: every fan-out loop of the pass is entered for every accepted configuration (rules_t7c20counts.go)
+	r.Rule("C20.R10")
+	c20Counts(r)
 }
 
 // c20Callers: every module function calling callee matches ownerGlob (closure
@@ -556,7 +560,10 @@ func c20FetchTail(r *Run) {
 		r.Funcs[FuncName(tf)] = true
 	}
 	run := r.OneCall(tf, k+"fetcher.Run", "(*scanner.Fetcher).Run")
-	prep := r.OneCall(fn, k+"fetcher.Prepare", "(*scanner.Fetcher).Prepare")
+	// the one tree head of the pass: delivered by the Fetcher's Prepare, or asked of the source client by fetchTail itself
+	sthSrc := c20SthSource(r, fn)
+	r.Check(k+"fetcher.Prepare", sthSrc.n == 1, r.FnPos(fn), fmt.Sprintf("expected exactly one request for the source tree head ((*scanner.Fetcher).Prepare, or (*client.LogClient).GetSTH) in %s, found %d", FuncName(fn), sthSrc.n))
+	prep := sthSrc.call
 	vc := r.OneCall(fn, k+"verifyConsistency", c20ctl+"verifyConsistency")
 	root := r.OneCall(fn, k+"getRoot", c20plc+"getRoot")
 	if run == nil || prep == nil || vc == nil || root == nil {
@@ -602,22 +609,23 @@ func c20FetchTail(r *Run) {
 		}
 		return strings.Join(alts, " || ")
 	}
-	sthSize := "(*scanner.Fetcher).Prepare(*)#0.TreeSize"
+	sthSize := sthSrc.val + ".TreeSize"
 	// how getRoot delivers the destination's size, root hash and error (separate results, or
 	// fields of a struct result)
 	shape := c20RootShape(r, true)
 	r.SgBlocked(fn, k+"gate[destination-root-unavailable]", "fetcher.Run", markers, sgNil(c20plc+"getRoot(*)"+shape.err, "non"))
-	r.SgBlocked(fn, k+"gate[source-sth-unavailable]", "fetcher.Run", markers, sgNil("(*scanner.Fetcher).Prepare(*)#1", "non"))
+	r.SgBlocked(fn, k+"gate[source-sth-unavailable]", "fetcher.Run", markers, sgNil(sthSrc.err, "non"))
 	r.SgBlocked(fn, k+"gate[source-not-past-begin]", "fetcher.Run", markers, sgOrd(sthSize, "p2", "<,="))
-	r.SgBlocked(fn, k+"gate[source-inconsistent]", "fetcher.Run", markers, sgNil(c20ctl+"verifyConsistency(*)", "non"))
 	// verifyConsistency is handed the destination size and root hash getRoot delivered and the
-	// source STH Prepare delivered — each in the parameter(s) the callee reads them from
+	// source STH of this pass — each in the parameter(s) the callee reads them from
 	roles := c20ConsistencyRoles(r, vc, shape)
+	// the fetcher starts only after this pass's check returned nil, or on a hit on a remembered verdict (rules_t8c20.go)
+	c20ConsistencyGate(r, fn, k, markers, vc, roles)
 	r.Check(k+"consistency.dest-size", roles.size != "", r.Where(vc), "verifyConsistency gets the destination tree size "+c20plc+"getRoot(*)"+shape.size+roles.how("size"))
 	r.Check(k+"consistency.dest-root", roles.hash != "", r.Where(vc), "verifyConsistency gets the destination root hash "+c20plc+"getRoot(*)"+shape.hash+roles.how("hash"))
-	r.Check(k+"consistency.source-sth", roles.sth != "", r.Where(vc), "verifyConsistency gets the source STH (*scanner.Fetcher).Prepare(*)#0"+roles.how("sth"))
+	r.Check(k+"consistency.source-sth", roles.sth != "", r.Where(vc), "verifyConsistency gets the source STH "+sthSrc.val+roles.how("sth"))
 	if !split {
-		r.Check(k+"one-fetcher", CallArgs(run)[0] == CallArgs(prep)[0] && glob("scanner.NewFetcher(*)", r.D.D(CallArgs(run)[0])), r.Where(run), "Run is called on the fetcher that was prepared: "+r.D.D(CallArgs(run)[0]))
+		r.Check(k+"one-fetcher", (sthSrc.own || CallArgs(run)[0] == CallArgs(prep)[0]) && glob("scanner.NewFetcher(*)", r.D.D(CallArgs(run)[0])), r.Where(run), "Run is called on the fetcher that was prepared: "+r.D.D(CallArgs(run)[0]))
 	} else {
 		// Run's receiver is a parameter of the transfer function, bound to the prepared fetcher
 		ok, got := false, r.D.D(CallArgs(run)[0])
@@ -626,20 +634,29 @@ func c20FetchTail(r *Run) {
 				if q == par && j < len(CallArgs(tcall)) {
 					a := CallArgs(tcall)[j]
 					got = r.D.D(a)
-					ok = a == CallArgs(prep)[0] && glob("scanner.NewFetcher(*)", got)
+					ok = (sthSrc.own || a == CallArgs(prep)[0]) && glob("scanner.NewFetcher(*)", got)
 				}
 			}
 		}
 		r.Check(k+"one-fetcher", ok, r.Where(run), "Run is called on the fetcher that was prepared: "+got)
 	}
 	if nf := r.OneCall(fn, k+"NewFetcher", "scanner.NewFetcher"); nf != nil {
-		r.ExpectArg(nf, k+"source-client", 0, "p0.ctClient")
+		// the Fetcher reads the configured source, and fits its range to the tree head that was verified (rules_t8c20.go)
+		var verified ssa.Value
+		if j := strings.TrimPrefix(roles.sth, "p"); roles.sth != "" && !strings.Contains(roles.sth, ".") {
+			var idx int
+			if _, err := fmt.Sscanf(j, "%d", &idx); err == nil && idx < len(CallArgs(vc)) {
+				verified = CallArgs(vc)[idx]
+			}
+		}
+		c20SourceClient(r, fn, k, nf, sthSrc, verified)
 	}
 	// results
 	for _, ret := range sgOkReturns(fn) {
 		v := r.D.D(sgRetVals(ret)[0])
 		switch {
-		case glob(sthSize, v):
+		case glob(sthSize, v), c20ReportsRangeEnd(r, fn, k, ret, sthSrc):
+			// the verified tree size, or the end of the range the Fetcher was made to transfer (rules_t8c20.go)
 			m := []ssa.Instruction{ret}
 			what := "return (sth.TreeSize, nil)"
 			tm, tfn := m, fn
@@ -660,7 +677,7 @@ func c20FetchTail(r *Run) {
 		case v == "p2":
 			r.SgBlocked(fn, k+"idle[source-past-begin]", "return (begin, nil)", []ssa.Instruction{ret}, sgOrd(sthSize, "p2", ">"))
 		default:
-			r.Fail(k+"result", r.Where(ret), "success return of "+v+" (only begin or the verified source tree size may be reported)")
+			r.Fail(k+"result", r.Where(ret), "success return of "+v+" (only begin, the verified source tree size or the fitted end of the range may be reported)")
 		}
 	}
 	// shared cancellable context
@@ -945,7 +962,7 @@ func c20ConsistencyRoles(r *Run, vc ssa.CallInstruction, sh c20Shape) c20Roles {
 				dup[x.role] = true
 			}
 		}
-		if glob("(*scanner.Fetcher).Prepare(*)#0", d) {
+		if glob(c20SthVal(r), d) {
 			if !dup["sth"] {
 				set("sth", &ro.sth, pj, "argument "+fmt.Sprint(j))
 			}
@@ -1188,6 +1205,17 @@ func c20Resume(r *Run) {
 	starts := r.StoresTo(fn, "&("+name+".StartIndex)")
 	ends := r.StoresTo(fn, "&("+name+".EndIndex)")
 	conts := r.StoresTo(fn, "&("+name+".Continuous)")
+	// fitting the end of the range to the verified tree size (what Prepare does with the Fetcher's
+	// options) is no resume decision: those stores are decided by range-end-fit (rules_t8c20.go)
+	sthSize := c20SthVal(r) + ".TreeSize"
+	fit := c20FitOf(r, fn, fo, sthSize)
+	isFit := map[*ssa.Store]bool{}
+	for _, st := range fit.fits {
+		isFit[st] = true
+	}
+	if len(fit.fits) > 0 {
+		c20FitTable(r, fn, k, fit, sthSize)
+	}
 	res, err := r.D.Table(fn, nil, nil, []RuleAtom{
 		{Name: "cont", Pat: name + ".Continuous"},
 		{Name: "neg", OrdA: name + ".StartIndex", OrdB: "0"},
@@ -1202,7 +1230,7 @@ func c20Resume(r *Run) {
 			}
 		}
 		for _, x := range ends {
-			if reach.Has(x) {
+			if reach.Has(x) && !isFit[x] {
 				en = append(en, c20StoredUnder(r, x, reach)...)
 			}
 		}
@@ -1233,7 +1261,7 @@ func c20Resume(r *Run) {
 		} else {
 			ok = ok && len(en) == 0 && len(co) == 0
 		}
-		r.Check(key, ok, r.FnPos(fn), fmt.Sprintf("StartIndex ← %v, EndIndex ← %v, Continuous ← %v (statement: tree size iff continuous or negative start; begin iff begin > start; continuous ⇒ EndIndex 0 and a one-shot fetcher)", st, en, co))
+		r.Check(key, ok, r.FnPos(fn), fmt.Sprintf("StartIndex ← %v, EndIndex ← %v, Continuous ← %v (statement: tree size iff continuous or negative start; begin iff begin > start; continuous ⇒ EndIndex 0 and a one-shot fetcher; stores that fit EndIndex to the verified tree size are decided by range-end-fit)", st, en, co))
 	})
 	if err != nil {
 		r.Fail(k+"resume", r.FnPos(fn), "undecided: "+err.Error())
